@@ -33,6 +33,20 @@ pub use multitree::{Children, NewNode, NodeAddress, NodeRef};
 pub use options::{ColumnOptions, Options};
 pub use stats::{ColumnStatSummary, StatSummary};
 
+/// Verification hooks (compiled only with `--cfg pdb_verif`).
+#[cfg(pdb_verif)]
+pub mod verif {
+	/// Both index page searches on a synthetic 64-entry page.
+	pub fn find_entries(
+		index_bits: u8,
+		key_prefix: u64,
+		sub_index: usize,
+		page: &[u8; 512],
+	) -> ((u64, usize), (u64, usize)) {
+		crate::index::IndexTable::verif_find_entries(index_bits, key_prefix, sub_index, page)
+	}
+}
+
 pub const KEY_SIZE: usize = 32;
 pub type Key = [u8; KEY_SIZE];
 
